@@ -258,4 +258,34 @@ def exponentialByLambda (p : PSpec) (ra rb : Option (List Rat)) : Except Err Out
       else if lo ≠ 0 ∧ lo ≠ hi then .error .Assertion
       else .error .Other
 
+/-! ## vocabulary of the generated code (`harness/pv/translator/param.py` → `Pun/Gen/ParamGen.lean`)
+
+The translator renders the source's own expressions with these import-free building blocks;
+`Props/C09Gen.lean` proves the rendered definitions equal to the hand model above. -/
+
+/-- `i.to_numpy()` of a scalar interval: both endpoints -/
+def endpoints (p : Rat × Rat) : List Rat := [p.1, p.2]
+/-- `i.to_numpy()[:1]` / `[1:]` -/
+def loOnly (p : Rat × Rat) : List Rat := [p.1]
+def hiOnly (p : Rat × Rat) : List Rat := [p.2]
+
+/-- `itertools.product(*ls)`: first factor slowest -/
+def cartesian : List (List Rat) → List (List Rat)
+  | [] => [[]]
+  | xs :: rest => xs.flatMap (fun x => (cartesian rest).map (x :: ·))
+
+/-- `zip(*ls)`: i-th elements together, as many tuples as the shortest list has elements -/
+def zipStar (ls : List (List Rat)) : List (List Rat) :=
+  match ls with
+  | [] => []
+  | l :: t => (List.range (t.foldl (fun m x => min m x.length) l.length)).map (fun i => ls.filterMap (fun x => x[i]?))
+
+/-- `(a[:n], dict(zip(names, a[n:])))`: what scipy is called with at corner `a` -/
+def splitCall (n : Nat) (names : List String) (a : List Rat) : List Rat × List (String × Rat) :=
+  (a.take n, names.zip (a.drop n))
+
+/-- the same with the keyword arguments filtered by truthiness (`if v`) -/
+def splitCallTruthy (n : Nat) (names : List String) (a : List Rat) : List Rat × List (String × Rat) :=
+  (a.take n, (names.zip (a.drop n)).filter (fun kv => kv.2 ≠ 0))
+
 end Pun.Param
